@@ -74,3 +74,8 @@ def run(eng, tier):
         'not_decided': ['whether rust_decimal evaluates the 28-digit quotient to the exact nearest unit (the half-unit-tie tolerance of the statement): numeric precision, outside static reach'],
         'assumptions': ['I4 and I7 on loaded bids (inductive hypothesis)'],
     }
+
+import probes as _pb
+PROBES = [
+    _pb.drop_facts('execute', 'CreateBid', 'round('),
+]
